@@ -67,7 +67,7 @@ func baseAlphabet(keys []int, cfg CacheCfg, rich bool) []string {
 	}
 	a = append(a, "cleanup")
 	if cfg.Expiry != "" || cfg.Refresh != "" {
-		a = append(a, "adv 1", "adv 39", "adv 60", fmt.Sprintf("adv %d", tickNs))
+		a = append(a, "adv 1", "adv 39", "adv 60", "adv 100", fmt.Sprintf("adv %d", tickNs)) // 100 = the TTL: exactly at a deadline
 		if rich {
 			a = append(a, fmt.Sprintf("adv %d", 2*tickNs+7))
 		}
